@@ -363,7 +363,10 @@ where
         let (new_laidx, n_pstack) =
             self.parser
                 .lr_cactus(None, laidx, laidx + 1, n.pstack.clone(), &mut None);
-        if n.pstack != n_pstack {
+        // Note that shifting a lexeme can leave the parse stack unchanged (e.g. with a left-recursive
+        // rule `L: L 'x'`, shifting an `x` after an `L 'x'` reduces and then leads back to the same
+        // states): that is still progress.
+        if new_laidx > laidx || n.pstack != n_pstack {
             let n_repairs = if new_laidx > laidx {
                 n.repairs.child(RepairMerge::Repair(Repair::Shift))
             } else {
